@@ -48,7 +48,10 @@ pub fn parse_cfg(line: &str) -> Cfg {
         parse_opt_usize(parse_kv(line, "maxw").unwrap_or("inf")).unwrap_or(usize::MAX);
     config.max_message_size = parse_opt_usize(parse_kv(line, "maxmsg").unwrap_or("none"));
     config.max_frame_size = parse_opt_usize(parse_kv(line, "maxframe").unwrap_or("none"));
-    config.accept_unmasked_frames = parse_kv(line, "unmasked").unwrap_or("0") == "1";
+    // `default`: leave the field as `WebSocketConfig::default()` sets it
+    if parse_kv(line, "unmasked") != Some("default") {
+        config.accept_unmasked_frames = parse_kv(line, "unmasked").unwrap_or("0") == "1";
+    }
     let pre = match parse_kv(line, "pre").unwrap_or("none") {
         "none" => None,
         h => Some(unhex(h)),
